@@ -129,6 +129,15 @@ def run(ctx):
                 if const:
                     c["const"] = const
                 ojobs.append({"id": 10 ** 5 + len(ojobs), "calls": [c], "expect_h": {"name": "n", "help": "h", "const": sorted(map(list, const)), "buckets": b}})
+    # three and four label maps, disjoint and overlapping (later maps win)
+    for tc in (False, True):
+        for maps in ([[["a", "1"]], [["b", "2"]], [["c", "3"]]], [[["a", "1"], ["z", "0"]], [["b", "2"]], [["a", "9"], ["c", "3"]]], [[["a", "1"]], [["b", "2"]], [["c", "3"]], [["d", "4"], ["b", "8"]]], [[], [], [["only", "third"]]]):
+            c = {"op": "opts_macro", "name": "n", "help": "h", "tc": tc}
+            merged = {}
+            for k, mp in enumerate(maps):
+                c["const" if k == 0 else "const%d" % (k + 1)] = mp
+                merged.update(dict(map(tuple, mp)))
+            ojobs.append({"id": 10 ** 5 + len(ojobs), "calls": [c], "expect": {"name": "n", "help": "h", "ns": "", "sub": "", "const": sorted(map(list, merged.items())), "var": []}})
     for hp in (" h", "h ", "h\n", " "):
         ojobs.append({"id": 10 ** 5 + len(ojobs), "calls": [{"op": "opts_macro", "name": "n", "help": hp, "tc": False}], "expect": {"name": "n", "help": hp, "ns": "", "sub": "", "const": [], "var": []}})
         ojobs.append({"id": 10 ** 5 + len(ojobs), "calls": [{"op": "histogram_opts_macro", "name": "n", "help": hp, "tc": False}], "expect_h": {"name": "n", "help": hp, "const": [], "buckets": []}})
